@@ -16,7 +16,7 @@ import CC.Driver.DPort
 open Lean CC
 
 def allHandlers : List (String × Handler) :=
-  handlers01 ++ handlersSpec ++ handlersTrans ++ handlersFmt ++ handlersFourier ++ handlersCircuit
+  handlers01 ++ handlersSpec ++ handlersSpec2 ++ handlersTrans ++ handlersFmt ++ handlersFourier ++ handlersCircuit
   ++ handlersLoad ++ handlersDraw ++ handlersState ++ handlersPort
 
 def handleLine (line : String) : String :=
